@@ -46,6 +46,8 @@ def threaded_scenario(draw) -> Dict[str, Any]:
             op['slow_ms'] = draw(st.sampled_from([0, 0, 0, 100]))
             # the listener starts further browsers from its callbacks (browse the type enumeration, then every type found)
             op['spawn'] = draw(st.sampled_from([0, 0, 0, 1, 2]))
+            # the listener closes the instance from its first callback ("found what I was looking for, done")
+            op['close_here'] = draw(st.sampled_from([False] * 7 + [True]))
         elif kind == 'announce':
             op['type'] = draw(st.integers(0, 1))
             op['n'] = draw(st.integers(1, 4))
@@ -58,6 +60,15 @@ def threaded_scenario(draw) -> Dict[str, Any]:
         elif kind == 'sleep':
             op['ms'] = draw(st.sampled_from([1, 50, 200, 500, 1300]))
         ops.append(op)
+    if draw(st.integers(0, 7)) == 0:
+        # the application closes the instance from inside a ServiceBrowser callback (a non-loop thread like any other)
+        ops = [{'op': 'register', 'svc': 0, 'bg': False}] if draw(st.booleans()) else []
+        ops += [{'op': 'browser', 'type': 1, 'slow_ms': draw(st.sampled_from([0, 100])), 'spawn': 0, 'close_here': True},
+                {'op': 'announce', 'type': 1, 'n': draw(st.integers(1, 4))}]
+        if draw(st.booleans()):
+            ops.append({'op': 'announce', 'type': 1, 'n': 2})
+        return {'kind': 'threaded', 'jitter': draw(st.integers(0, 10**6)), 'ops': ops,
+                'close_after_ms': draw(st.sampled_from([300, 600])), 'how': 'close', 'post_traffic': draw(st.integers(0, 1))}
     if draw(st.integers(0, 5)) == 0:
         # a slow listener that starts another browser from each of its callbacks; callbacks are still outstanding when close()
         # is requested, so browsers come into being while close() is removing them
@@ -86,6 +97,7 @@ class ThreadListener:
         self.w, self.slow_ms = w, slow_ms
         self.events: List[Tuple[int, str, str, int]] = []
         self.spawn, self.spawn_type, self.children = spawn, spawn_type, children
+        self.closer: Any = None          # set for a listener that closes the instance from its first callback
         self.spawn_outcomes: List[str] = []
         self.spawn_g: List[int] = []
 
@@ -93,6 +105,9 @@ class ThreadListener:
         g0 = self.w.next_g()
         if self.slow_ms:
             self.w.sleep_ms(self.slow_ms)
+        if self.closer is not None:
+            closer, self.closer = self.closer, None
+            closer(g0)
         if self.spawn > 0 and zc is not None and self.children is not None:
             self.spawn -= 1
             child = ThreadListener(self.w, 0)
@@ -178,6 +193,30 @@ def _check_threaded(case: Dict[str, Any]) -> Dict[str, Any]:
         loop_thread = zc._loop_thread
         browser_threads: List[Any] = []
 
+        C: Dict[str, Any] = {'started': threading.Event(), 'finished': threading.Event(), 'lock': threading.Lock(), 'exc': []}
+
+        def do_close(who: str, cb_g0: Any) -> None:
+            """close the instance once - from the harness' closer thread, or from inside a ServiceBrowser callback"""
+            with C['lock']:
+                if C['started'].is_set():
+                    return
+                C['started'].set()
+            C['who'], C['closing_cb_g0'] = who, cb_g0
+            C['in_flight'] = [b.name for b in bgs if b.thread.is_alive()]
+            C['in_registry'] = [rp.Svc(SVCS[k]) for k in list(registered) if zc.registry.async_get_info_name(SVCS[k]['name'].lower()) is not None]
+            C['queued'] = len(zc.out_queue.queue) + len(zc.out_delay_queue.queue)
+            C['g_call'] = w.mark('close-call')
+            try:
+                if case['how'] == 'with' and who == 'harness':
+                    with zc:
+                        pass
+                else:
+                    zc.close()
+            except BaseException as e:  # noqa
+                C['exc'].append(e)
+            C['g_done'] = w.mark('close-done')
+            C['finished'].set()
+
         def n_probes() -> int:
             return sum(1 for e in list(w.trace) if len(e['data']) > 3 and not (e['data'][2] & 0x80))
 
@@ -201,6 +240,8 @@ def _check_threaded(case: Dict[str, Any]) -> Dict[str, Any]:
                 zc.unregister_service(infos[k])
             elif kind == 'browser':
                 lst = ThreadListener(w, op['slow_ms'], op.get('spawn', 0), TYPES[1 - op['type']], listeners)
+                if op.get('close_here'):
+                    lst.closer = lambda g0: do_close('callback', g0)
                 listeners.append(lst)
                 zc.add_service_listener(TYPES[op['type']], lst)
                 browser_threads.append(zc.browsers[lst])
@@ -228,29 +269,15 @@ def _check_threaded(case: Dict[str, Any]) -> Dict[str, Any]:
             elif kind == 'sleep':
                 w.sleep_ms(op['ms'])
         w.sleep_ms(case['close_after_ms'])
-        in_flight = [b.name for b in bgs if b.thread.is_alive()]
-        in_registry = [rp.Svc(SVCS[k]) for k in registered if zc.registry.async_get_info_name(SVCS[k]['name'].lower()) is not None]
-        queued = len(zc.out_queue.queue) + len(zc.out_delay_queue.queue)
-        closer_exc: List[BaseException] = []
-
-        def do_close() -> None:
-            try:
-                if case['how'] == 'with':
-                    with zc:
-                        pass
-                else:
-                    zc.close()
-            except BaseException as e:  # noqa
-                closer_exc.append(e)
-
-        g_call = w.mark('close-call')
-        ct = threading.Thread(target=do_close, name='harness-closer', daemon=True)
-        ct.start()
-        ct.join(JOIN_S)
-        if ct.is_alive():
-            raise Violation('close() called from a non-loop thread did not return', {'in_flight': in_flight, 'real_seconds': JOIN_S},
+        if not C['started'].is_set():
+            ct = threading.Thread(target=do_close, args=('harness', None), name='harness-closer', daemon=True)
+            ct.start()
+        if not C['finished'].wait(JOIN_S):
+            raise Violation('close() called from a non-loop thread did not return', {'in_flight': C.get('in_flight'), 'real_seconds': JOIN_S,
+                                                                                     'called_from': C.get('who')},
                             tag='threaded-close-hangs')
-        g_done = w.mark('close-done')
+        in_flight, in_registry, queued, closer_exc = C['in_flight'], C['in_registry'], C['queued'], C['exc']
+        g_call, g_done = C['g_call'], C['g_done']
         det: Dict[str, Any] = {'in_flight_at_close': in_flight, 'ops': [o['op'] for o in case['ops']]}
         if closer_exc:
             raise Violation(f'close() raised {type(closer_exc[0]).__name__}', dict(det, exc=repr(closer_exc[0])), tag='threaded-close-raised:' + type(closer_exc[0]).__name__)
@@ -285,7 +312,8 @@ def _check_threaded(case: Dict[str, Any]) -> Dict[str, Any]:
         if alive:
             raise Violation('thread of a ServiceBrowser still alive after close() returned', dict(det, threads=alive), tag='threaded-browser-thread-alive')
         for lst in listeners:
-            cb = [e for e in lst.events if e[3] > g_done]
+            # (the callback from which the application closed the instance is still running when close() returns)
+            cb = [e for e in lst.events if e[3] > g_done and e[0] != C.get('closing_cb_g0')]
             if cb:
                 raise Violation('ServiceBrowser listener callback ran after close() had returned',
                                 dict(det, callback=cb[0][1:3], started_after=cb[0][0] > g_done), tag='threaded-callback-after-close')
@@ -349,6 +377,8 @@ def _check_threaded(case: Dict[str, Any]) -> Dict[str, Any]:
         classes.append('threaded-close-with-queued-answers')
     if listeners:
         classes.append('threaded-close-with-thread-browsers')
+    if C.get('who') == 'callback':
+        classes.append('threaded-close-called-from-a-browser-callback')
     if any(l.spawn_outcomes for l in listeners):
         classes.append('threaded-browser-started-from-a-callback')
     if any(g_call < g < g_done for l in listeners for g in l.spawn_g):
